@@ -1715,7 +1715,7 @@ impl IdmServerProxyReadTransaction<'_> {
         rate: &RadiusAuthTokenEvent,
         ct: Duration,
     ) -> Result<RadiusAuthToken, OperationError> {
-        let account = self
+        let mut account = self
             .qs_read
             .impersonate_search_ext_uuid(rate.target, &rate.ident)
             .and_then(|account_entry| {
@@ -1725,6 +1725,14 @@ impl IdmServerProxyReadTransaction<'_> {
                 admin_error!("Failed to start radius auth token {:?}", e);
                 e
             })?;
+
+        // The validity window must be decided from the stored entry, not the access
+        // reduced one: the requester (for example a member of idm_radius_servers) may
+        // not be allowed to read account_valid_from / account_expire, which would make
+        // an expired or not yet valid account look unrestricted.
+        let stored_entry = self.qs_read.internal_search_uuid(rate.target)?;
+        account.valid_from = stored_entry.get_ava_single_datetime(Attribute::AccountValidFrom);
+        account.expire = stored_entry.get_ava_single_datetime(Attribute::AccountExpire);
 
         account.to_radiusauthtoken(ct)
     }
